@@ -157,6 +157,13 @@ class IterFlow:
             if cls.is_subclass_of(self.base):
                 for f in cls.funcs():
                     self.funcs[(cls.name, f.srcname)] = f
+        # module-level helpers of the iterator modules (a strategy moved out of its class)
+        self.modfuncs = {}
+        for g in program.all_funcs:
+            if g.cls is None and g.outer is None and not g.is_lambda and g.module.relpath.startswith("anytree/iterators/"):
+                self.modfuncs[(g.module.relpath, g.srcname)] = g
+                if self.is_rec_strategy(g):
+                    self.funcs[("<%s>" % g.module.relpath, g.srcname)] = g
         # inferred preconditions of sequence parameters: (checked, admitted)
         self.pre = {}
         self.callsite_facts = {}
@@ -171,7 +178,7 @@ class IterFlow:
     def strategy_funcs(self):
         out = []
         for (c, n), f in sorted(self.funcs.items()):
-            if n in ("_iter", "__next", "_get_grandchildren", "__init") and not (c == "AbstractIter" and n == "_iter"):
+            if (n in ("_iter", "__next", "_get_grandchildren", "__init") or self.is_rec_strategy(f)) and not (c == "AbstractIter" and n == "_iter"):
                 out.append(f)
         return out
 
@@ -226,6 +233,32 @@ class IterFlow:
             if prm.arg == extra[0] and isinstance(d, ast.Constant) and isinstance(d.value, int) and not isinstance(d.value, bool):
                 dflt = d.value
         return extra[0], dflt
+
+    @staticmethod
+    def is_rec_strategy(f):
+        """a recursive generator over a `children` sequence (the shape of PostOrderIter.__next), whatever it is called
+        and wherever it lives"""
+        if "children" not in f.posparams or not IterFlow._is_generator(f):
+            return False
+        for n in ast.walk(f.node):
+            if isinstance(n, ast.Call):
+                fn = n.func
+                nm = fn.id if isinstance(fn, ast.Name) else fn.attr if isinstance(fn, ast.Attribute) else None
+                if nm == f.srcname:
+                    return True
+        return False
+
+    @staticmethod
+    def _is_generator(f):
+        stack = list(f.node.body)
+        while stack:
+            x = stack.pop()
+            if isinstance(x, (ast.Yield, ast.YieldFrom)):
+                return True
+            if isinstance(x, (ast.FunctionDef, ast.AsyncFunctionDef, ast.Lambda, ast.ClassDef)):
+                continue
+            stack.extend(ast.iter_child_nodes(x))
+        return False
 
     def entry_env(self, f):
         env = {}
@@ -425,6 +458,12 @@ class IterFlow:
             if n.ast.value is not None:
                 v = self.ev(f, n.ast.value, env, facts, rec, n)
                 rets.append(v)
+                # a strategy that is not itself a generator function hands back what it returns: that must be the result of a
+                # tracked strategy call, otherwise nothing is known about the nodes it will yield
+                if rec and f.srcname == "_iter" and not self._is_generator(f) and v != ("gen",):
+                    self.problem("S2", f, n.ast, "the strategy returns `%s`, which is not the result of a tracked strategy / recursive "
+                                 "call: the nodes it yields are produced by code this analysis does not follow" % norm(n.ast.value),
+                                 undecided=True)
             return st
         if k == "stmt":
             s = n.ast
@@ -788,20 +827,24 @@ class IterFlow:
                 owner = f.cls
             if owner is not None:
                 from .model import mangle
-                mem = owner.lookup(mangle(f.cls.name, fn.attr)) or owner.lookup(fn.attr)
+                mem = owner.lookup(mangle(f.cls.name if f.cls is not None else owner.name, fn.attr)) or owner.lookup(fn.attr)
                 if isinstance(mem, Func) and not (mem.cls is self.base and mem.srcname == "_iter"):
                     callee = mem
                 elif owner.name == "AbstractIter" or True:
                     # self._iter(...) dispatches to every strategy
                     if fn.attr == "_iter":
                         callee = "dispatch"
+        if callee is None and isinstance(fn, ast.Name):
+            g = self.modfuncs.get((f.module.relpath, fn.id))
+            if g is not None:
+                callee = g
         if callee == "dispatch":
             for (c, nme), g in self.funcs.items():
                 if nme == "_iter" and c != "AbstractIter":
                     self.call_site(f, e, g, args, kw, facts, rec)
             return ("gen",)
         if isinstance(callee, Func):
-            if callee.srcname in ("_iter", "__next"):
+            if callee.srcname in ("_iter", "__next") or self.is_rec_strategy(callee):
                 self.call_site(f, e, callee, args, kw, facts, rec)
                 return ("gen",)
             if callee.srcname == "_get_grandchildren":
